@@ -171,6 +171,20 @@ func runC07(c *core.Ctx) {
 		}())
 	}
 
+	// 1b. one payload as a string and as bytes (and twice as each) within one value, at every length class: the type must
+	// survive, whichever comes first
+	for _, n := range sval.StringLens {
+		pl := g.StrLen(n)
+		sv, bv := starlark.String(pl), starlark.Bytes(pl)
+		check(fmt.Sprintf("str-then-bytes/%d", n), "same-payload-string-and-bytes", starlark.Tuple{sv, bv})
+		check(fmt.Sprintf("bytes-then-str/%d", n), "same-payload-string-and-bytes", starlark.NewList([]starlark.Value{bv, sv}))
+		check(fmt.Sprintf("str-str-bytes-bytes/%d", n), "same-payload-string-and-bytes", starlark.Tuple{sv, starlark.String(pl), bv, starlark.Bytes(pl), sv})
+		d := starlark.NewDict(2)
+		d.SetKey(sv, bv)
+		d.SetKey(bv, sv)
+		check(fmt.Sprintf("str-bytes-as-keys/%d", n), "same-payload-string-and-bytes", d)
+	}
+
 	// 2. the (kind x size x position) matrix, exhaustively.
 	matrix := 0
 	for _, pos := range c07Positions() {
